@@ -259,16 +259,20 @@ def call_main(argv):
     root = logging.getLogger()
     before = list(root.handlers)
     lvl = root.level
-    old_argv, old_out = sys.argv, sys.stdout
+    old_argv, old_out, old_err = sys.argv, sys.stdout, sys.stderr
     cap = io.StringIO()
     sys.argv = ['x12norm'] + argv
     sys.stdout = cap
+    sys.stderr = io.StringIO()        # the program's log handler binds to the stderr of the moment: kept off the harness' own
+    off = root.manager.disable
+    logging.disable(logging.NOTSET)   # the harness silences logging globally (core.bind_repo); the program under test runs with it on
     try:
         x12norm.main()
     except (Exception, SystemExit) as e:
         raise Failed(e)
     finally:
-        sys.argv, sys.stdout = old_argv, old_out
+        sys.argv, sys.stdout, sys.stderr = old_argv, old_out, old_err
+        logging.disable(off)
         for h in list(root.handlers):
             if h not in before:
                 root.removeHandler(h)
@@ -283,12 +287,12 @@ def slurp(p):
         return f.read()
 
 
-def norm_once(tmp, n, text, eol, fix, dest):
+def norm_once(tmp, n, text, eol, fix, dest, extra=()):
     """one run of the normaliser on `text` -> output text as found at the requested destination"""
     pin = os.path.join(tmp, 'in%d.x12' % n)
     with open(pin, 'w', encoding='ascii', newline='') as f:
         f.write(text)
-    argv = (['-e'] if eol else []) + (['-f'] if fix else [])
+    argv = list(extra) + (['-e'] if eol else []) + (['-f'] if fix else [])
     if dest == 'ofile':
         pout = os.path.join(tmp, 'out%d.x12' % n)
         # the output path already exists (an earlier run wrote there): -o names the file to WRITE, stale content must go
@@ -545,6 +549,51 @@ def work_boundary(shard):
     return P
 
 
+VERBOSITY = (('-v',), ('-vv',), ('-d',), ('-q',), ('-v', '-d'), ('--verbose',), ('--debug',), ('--quiet',))
+VERB_DOCS = ['m1113', 'm1122:shapes', 'm1122:se2', 's:simple1']
+
+
+def verbosity_check(name, eol, fix, dest, flags):
+    """the verbosity switches say how much the program reports about its work; what it writes as the normalised
+    document (stdout, -o FILE, in place) is the same text with and without them"""
+    text = corpus()[name]
+    tmp = tempfile.mkdtemp(prefix='c20v_', dir=SCRATCH)
+    try:
+        try:
+            a = norm_once(tmp, 0, text, eol, fix, dest)
+        except Failed as e:
+            return None, 'plain run fails (judged by the main family)'
+        try:
+            b = norm_once(tmp, 1, text, eol, fix, dest, flags)
+        except Failed as e:
+            return [('C20|verbosity|raises %s' % type(e.exc).__name__, 'options %s %s: %r' % (' '.join(flags), dest, e.exc))], None
+        if a != b:
+            k = 0
+            while k < min(len(a or ''), len(b or '')) and a[k] == b[k]:
+                k += 1
+            return [('C20|verbosity|output differs', 'document %s, options %s%s%s to %s: the normalised text differs from the run without %s at offset %d: %r instead of %r'
+                     % (name, ' '.join(flags), ' -e' if eol else '', ' -f' if fix else '', dest, ' '.join(flags), k, (b or '')[k:k + 60], (a or '')[k:k + 60]))], None
+        return [], None
+    finally:
+        shutil.rmtree(tmp, ignore_errors=True)
+
+
+def work_verbosity(shard):
+    name, = shard
+    P = core.Part()
+    for flags in VERBOSITY:
+        for (eol, fix, dest) in OPTS:
+            v, label = verbosity_check(name, eol, fix, dest, flags)
+            P.n += 1
+            if v is None:
+                P.counters['verbosity: ' + label] += 1
+                continue
+            P.out('verbosity|%s|%s' % (flags[0], dest))
+            for k, m in v:
+                P.bad(k, {'verbosity': list(flags), 'name': name, 'eol': eol, 'fix': fix, 'dest': dest}, m)
+    return P
+
+
 def work_batch(shard):
     pairs, = shard
     P = core.Part()
@@ -569,6 +618,9 @@ def evaluate(case):
         return v or []
     if 'batch' in case:
         v, _ = batch_check(case['batch'], case['eol'], case['fix'], case['dest'])
+        return v or []
+    if 'verbosity' in case:
+        v, _ = verbosity_check(case['name'], case['eol'], case['fix'], case['dest'], tuple(case['verbosity']))
         return v or []
     text = build(case)
     if text is None:
@@ -669,12 +721,14 @@ def run(R):
         pairs += [(a, b, c3) for a in BATCH_DOCS[:4] for b in BATCH_DOCS[:4] for c3 in BATCH_DOCS[:4]]
     R.pmap(work_batch, [(ch,) for ch in core.chunks(pairs, 32)])
     R.cov['batch_invocations'] = len(pairs) * 8
+    R.pmap(work_verbosity, [(n,) for n in VERB_DOCS])
     npad = 64 if R.thorough else 40
     R.pmap(work_boundary, [(list(range(k, npad, 16)), R.thorough) for k in range(16)])
     R.cov['boundary_documents'] = npad * 2
     c = corpus()
     R.bounds = {'documents': '%d hand-built minimal interchanges (incl. 3 with a group-less TA1-only interchange) + %d suite sources, each as shipped and with reference-correct counts'
                              % (sum(1 for n in c if n.startswith('m')), sum(1 for n in c if n.startswith('s:'))),
+                'verbosity': '%d documents x the 12 option combinations x %d spellings of the -v / -d / -q switches: output identical to the run without them' % (len(VERB_DOCS), len(VERBOSITY)),
                 'layouts': list(LAYOUTS), 'foreign delimiter triples': [list(d) for d in (FOREIGN_T if R.thorough else FOREIGN_Q)],
                 'defects': 'IEA01/GE01/SE01/HL01 in {true+1,true-1,x,empty,zero-padded} at every trailer/HL singly; HL01 of every set shifted/reversed/adjacent-swapped; '
                            'all pairs of sites x {true+1,true-1,x,empty}^2 on %s' % ('every document' if R.thorough else 'the hand-built documents'),
